@@ -377,7 +377,7 @@ package providers
 // "no such group" is the one error on which the cache drops the list it had: it is said only when the directory
 // answered 404 for this group (or for a nested group, passed up unchanged; or the request itself failed with that very
 // error value, passed up unchanged); every other failure keeps the old list
-//@   ensures [C17] not_found_only_when_the_directory_says_404: result.1 == groups.ErrGroupNotFound ==> (called(@listMemberships#1) && @listMemberships#1.1 == groups.ErrGroupNotFound) || (called(@Call#1) && @Call#1.1 != nil && (result.1 == @Call#1.1 || (typeis(@Call#1.1, "*google.golang.org/api/googleapi.Error") && local("e").Code == 404)))
+//@   ensures [C17] not_found_only_when_the_directory_says_404: result.1 == groups.ErrGroupNotFound ==> (called(@listMemberships#1) && @listMemberships#1.1 == groups.ErrGroupNotFound) || (called(@Call#1) && @Call#1.1 != nil && (result.1 == @Call#1.1 || (typeis(@Call#1.1, "*google.golang.org/api/googleapi.Error") && e.Code == 404)))
 //@   loop 1
 //@     invariant no_page_was_skipped: !called(@Call#1) || @Call#1.1 == nil
 //@     invariant no_nested_group_was_skipped: !called(@listMemberships#1) || @listMemberships#1.1 == nil
